@@ -16,4 +16,5 @@ let dispatch fnum z nat entry (is : int list) (xs : Obj.t list) : Obj.t list res
   match entry with
   | "resample" -> run_resample fnum (List.map z is) xs
   | "resample32" -> run_resample (fnum32 fnum) (List.map z is) xs
+  | "session" -> run_session fnum (List.map z is) xs
   | _ -> Err OtherError
